@@ -94,6 +94,54 @@ fn run_field<N: Fld>(case: &Case, mut o: Obs) -> Outcome {
         }
     }
     o.set("ratio_backward", worst / bound);
+    // the same division through the f32 instantiation (real field, equal tolerances, short operands with a divisor lead
+    // of at least 0.5 so that no coefficient can overflow single precision), data at unit scale and scaled by 1e-8 with
+    // the zero tolerance 1e-10: quotient x divisor + remainder must reconstruct the dividend on the f32 rounding scale -
+    // no threshold other than the polynomial's tolerance may enter
+    if !N::COMPLEX && case.dtol_exp == 0 && case.kind <= 1 && a.len() <= 12 && d.len() <= 5 && d.len() >= 2 {
+        for scale in [1.0f64, 1e-8] {
+            let a32: Vec<f32> = a.iter().map(|z| (z.re * scale) as f32).collect();
+            let mut d32: Vec<f32> = d.iter().map(|z| z.re as f32).collect();
+            let lead = d32.last_mut().unwrap();
+            if lead.abs() < 0.5 {
+                *lead = if *lead < 0.0 { -0.5 } else { 0.5 };
+            }
+            let desc = |v: &Vec<f32>| v.iter().rev().cloned().collect::<Vec<f32>>();
+            let (mut pa32, mut pd32) = (Polynomial::<f32>::from_slice(&desc(&a32)), Polynomial::<f32>::from_slice(&desc(&d32)));
+            pa32.set_tolerance(1e-10).unwrap();
+            pd32.set_tolerance(1e-10).unwrap();
+            let (q32, r32) = match pa32.divide(&pd32) {
+                Ok(x) => x,
+                Err(e) => return o.fail(format!("f32 divide returned Err({e}) for a non-zero divisor")),
+            };
+            let qv32: Vec<C64> = (0..=q32.order()).map(|k| c(q32.get_coefficient(k) as f64, 0.0)).collect();
+            let rv32: Vec<C64> = (0..=r32.order()).map(|k| c(r32.get_coefficient(k) as f64, 0.0)).collect();
+            let dv32: Vec<C64> = d32.iter().map(|v| c(*v as f64, 0.0)).collect();
+            let mut rec32 = naive_mul_c(&qv32, &dv32);
+            if rec32.len() < rv32.len() {
+                rec32.resize(rv32.len(), c(0.0, 0.0));
+            }
+            for (k, x) in rv32.iter().enumerate() {
+                rec32[k] += x;
+            }
+            let n1a32: f64 = a32.iter().map(|v| v.abs() as f64).sum();
+            let b32 = 64.0 * f32::EPSILON as f64 * (norm1_c(&qv32) * norm1_c(&dv32) + n1a32) * (deg + 1.0) + 1.5e-10;
+            let mut w32: f64 = 0.0;
+            for k in 0..rec32.len().max(a32.len()) {
+                let want = a32.get(k).map_or(0.0, |v| *v as f64);
+                let got = rec32.get(k).map_or(0.0, |z| z.re);
+                if !got.is_finite() {
+                    return o.fail("f32 division produced a non-finite coefficient");
+                }
+                w32 = w32.max((got - want).abs());
+            }
+            o.set("ratio_backward_f32", w32 / b32);
+            o.label("single-precision-companion");
+            if !(w32 <= b32) {
+                return o.fail(format!("f32 division (data scale {scale:e}): dividend != quotient*divisor + remainder by {w32:e} (> {b32:e})"));
+            }
+        }
+    }
     o.set("ratio_backward_rounding", if worst > 1.4143 * tol { worst / (bound - 1.5 * tol).max(1e-300) } else { 0.0 });
     if nd == 1 {
         // scaling by the constant, zero remainder
@@ -204,7 +252,7 @@ pub fn run(opts: &Opts) -> i32 {
     }
     spec.cases = opts.tier.pick(60_000, 2_000_000);
     spec.essential = vec![("generic", 0.3), ("exact-multiple", 0.1), ("constant-divisor", 0.02), ("divisor-higher", 0.05), ("zero-divisor", 0.05), ("complex", 0.3)];
-    spec.rule = "generated: dividends of length 1..41, divisors of length 1..21 (shapes as in C11, leading divisor coefficient forced to magnitude >= 0.1), real and complex, zero tolerance 10^[-14,-8] (a quarter of the divisors carry that tolerance x 1e3 or x 1e-3: quotient and remainder are formed under the dividend's); classes: generic, exact multiple (q*d formed naively), divisor of higher degree, constant divisor, zero polynomial (both spellings), zero dividend. Oracle: a = q d + r reconstructed in naive harness arithmetic within 64 eps (|q|_1|d|_1 + |a|_1)(deg+1) + 1.5 tol per coefficient; deg r < deg d; exact multiples: remainder within the bound; constant divisor: scaled coefficients and zero remainder; zero divisor: Err. Non-trivial = deg a >= deg d >= 1. Distinct = distinct case JSON.".into();
+    spec.rule = "generated: dividends of length 1..41, divisors of length 1..21 (shapes as in C11, leading divisor coefficient forced to magnitude >= 0.1), real and complex, zero tolerance 10^[-14,-8] (a quarter of the divisors carry that tolerance x 1e3 or x 1e-3: quotient and remainder are formed under the dividend's); real cases with a dividend of at most 12 and a divisor of 2-5 coefficients are repeated through the f32 instantiation (divisor lead raised to 0.5 so that nothing overflows; data at unit scale and x 1e-8, tolerance 1e-10; reconstruction on the f32 rounding scale); classes: generic, exact multiple (q*d formed naively), divisor of higher degree, constant divisor, zero polynomial (both spellings), zero dividend. Oracle: a = q d + r reconstructed in naive harness arithmetic within 64 eps (|q|_1|d|_1 + |a|_1)(deg+1) + 1.5 tol per coefficient; deg r < deg d; exact multiples: remainder within the bound; constant divisor: scaled coefficients and zero remainder; zero divisor: Err. Non-trivial = deg a >= deg d >= 1. Distinct = distinct case JSON.".into();
     spec.max_shrink_iters = 2000;
     run_spec(spec, opts)
 }
